@@ -128,7 +128,7 @@ func TestC17(t *testing.T) {
 			}
 			for _, off := range offs(pos) {
 				item++
-				if !rec.Mine(item) {
+				if !rec.MineExcept(item, 7%rec.NShards()) {
 					continue
 				}
 				c := c17Case{Base: base, K: 28, Leaf: l.Name, Off: off}
@@ -156,9 +156,9 @@ func TestC17(t *testing.T) {
 		}
 	}
 	// one position of every Goldilocks leaf kind on the circuit compiled for the deployed backend
-	if rec.Mine(7) || rec.Thorough() && rec.Mine(8) {
+	if rec.ShardIdx() == 7%rec.NShards() || rec.Thorough() && rec.ShardIdx() == 8%rec.NShards() {
 		base := "A1"
-		if !rec.Mine(7) {
+		if rec.ShardIdx() != 7%rec.NShards() {
 			base = "B1"
 		}
 		rn := getRunner(base, 1)
